@@ -8,14 +8,19 @@ ROOT = os.path.dirname(os.path.dirname(os.path.abspath(__file__)))
 sys.path.insert(0, ROOT)
 from hcsa import main as M
 names = set()
+params = {}
 for cfg in M.CONFIGS:
     p = M.extract(cfg)
     j = json.load(open(p))
     for b in j["bodies"]:
         if b["kind"] in ("Fn", "AssocFn"):
             names.add(b["name"])
+            params[b["name"]] = {"args": [b["locals"][i]["name"] for i in range(1, b["arg_count"] + 1)]}
+        elif b["is_coroutine"] and b["name"].endswith("::{closure#0}") and "::{closure" not in b["name"][:-len("::{closure#0}")]:
+            # the coroutine of an async fn captures exactly the fn's parameters, in order
+            params[b["name"]] = {"upvars": [u["name"] for u in b["upvars"]]}
     os.unlink(p)
 import subprocess
 head = subprocess.run(["git", "-C", "/repo", "rev-parse", "HEAD"], capture_output=True, text=True).stdout.strip()
-json.dump({"reviewed_tree": head, "functions": sorted(names)}, open(os.path.join(ROOT, "rules", "known_fns.json"), "w"), indent=0)
+json.dump({"reviewed_tree": head, "functions": sorted(names), "params": {k: params[k] for k in sorted(params)}}, open(os.path.join(ROOT, "rules", "known_fns.json"), "w"), indent=0)
 print(len(names), "functions")
